@@ -118,6 +118,8 @@ TTxEnd ==
     /\ fl.ok => /\ Chk("P2-ids-of-add-messages", Len(Ev.ids) = NAddMsgs(fl.tx))
                 /\ Chk("P4-added-removed-calls", Side(Ev.calls) = Side(Seen(fl.calls)))
     /\ TxEnd
+    /\ Chk("P11-charged-fee-consumes-the-payers-sequence-number",
+           \A a \in conf.accts : Ev.st.fee[a] > fl.S0.fee[a] => Ev.st.seq[a] > fl.S0.seq[a])
     /\ Matches(Ev.st)
     /\ l' = l + 1
 
